@@ -547,6 +547,16 @@ def check_query(part, project, root, q, desc, only_attr=None):
             exp_desc = '%s:%d (body of %s, first on the MRO to define it)' % (X['file'], line, X['name'])
             ok = bool(got) and all(s == (X['file'], line) for s in got)
             expcat = 'class-body'
+            if desc['type'] == 'instance' and ssites and n in X.get('data_desc', ()):
+                # The property text names two answers here: "an instance assignment if there is one" (a
+                # `self.attr = ...` site exists in an MRO class) and "the definition Python's lookup selects"
+                # (the data descriptor / property, which wins in CPython).  Both satisfy it as written.
+                exp_desc += ' or a `self.%s = ...` site (data descriptor %s)' % (n, X['kinds'].get(n))
+                if ok:
+                    part.hist('descriptor_vs_self_assign_accepted', 'descriptor:%s' % X['kinds'].get(n))
+                elif got and all(s in ssites for s in got):
+                    ok = True
+                    part.hist('descriptor_vs_self_assign_accepted', 'self-assign:%s' % X['kinds'].get(n))
         part.count('location_comparisons')
         part.hist('location_expected', '%s:%s' % (group, expcat))
         if ok:
@@ -585,8 +595,6 @@ def check_query(part, project, root, q, desc, only_attr=None):
             if expcat == 'class-body' and cat == 'self-assign':
                 if group in ('class', 'cls'):
                     cat = 'self-assign(object is a class)'
-                elif n in mro[first].get('data_desc', ()):
-                    cat = 'self-assign(blocked by data descriptor %s)' % mro[first]['kinds'].get(n)
                 else:
                     cat = 'self-assign(never executed)'
             mech = '%s->%s' % (expcat, cat)
@@ -738,7 +746,40 @@ def work(arg):
     return part.dump()
 
 
+WITNESS_DIR = os.path.join(core.VERIF, 'witnesses', 'C06')
+
+
+def work_witnesses(arg):
+    """Re-run the committed witness projects of open known findings (files + one query each)."""
+    part = core.Part()
+    names = sorted(f for f in os.listdir(WITNESS_DIR) if f.endswith('.json')) if os.path.isdir(WITNESS_DIR) else []
+    for fn in names:
+        with open(os.path.join(WITNESS_DIR, fn)) as f:
+            w = json.load(f)
+        tmp = tempfile.mkdtemp(prefix='vf-')
+        try:
+            root = os.path.join(tmp, 'r')
+            project = {'files': w['files'], 'queries': [w['query']], 'meta': w.get('meta') or {}, 'root': root}
+            write_tree(root, project['files'])
+            res, err = run_oracle(tmp, [project])
+            part.count('witnesses_run')
+            if res is None:
+                part.inconclusive.append('witness %s: %s' % (fn, err))
+                continue
+            before = len(part.violations)
+            check_project(part, project, root, res[0], 'witness:' + fn)
+            hit = any(v['mech'] == w['key'] for v in part.violations[before:])
+            part.hist('witnesses', '%s:%s' % (w['key'], 'reproduces' if hit else 'no longer reproduces'))
+        finally:
+            shutil.rmtree(tmp, ignore_errors=True)
+    return part.dump()
+
+
 def main(run):
+    core.run_parts(run, 'vf.props.c06:work_witnesses', [[]], timeout=300)
+    for k in sorted(run.hists.get('witnesses', {})):
+        if k.endswith(':no longer reproduces'):
+            run.notes.append('witness of known finding %s' % k)
     n = run.pick(320, 10000)
     per = run.pick(20, 50)
     args = [[run.seed, s, min(per, n - s)] for s in range(0, n, per)]
